@@ -39,7 +39,7 @@ def reference(branches, join, items, mode):
 class C08(Check):
     ID = 'C08'
     LEVEL = 'exploration'
-    BUDGET = {'quick': 30, 'thorough': 240}
+    BUDGET = {'quick': 75, 'thorough': 240}
     RULE = ('case = (2..4 branch pipelines from the typed generator - streaming, filtering, reducing, multiplexed-only stateful operators, nested windows / groups and nested '
             'tee_map in keyed modes -, join in zip/merge/combine_latest, mode: plain observable, one multiplexed key, or keyed under group_by / roll (w != s, w == s) / split / '
             'time_split where the join slots are reused by successive key lifetimes; input 0..30 ints; every 60th case 140-300 interleaved groups with branches of different rates on 900-1500 items). Branches are re-run separately in the same mode with a Subject-driven '
@@ -59,7 +59,7 @@ class C08(Check):
         n = 3800 if tier == 'quick' else 10 ** 7
         names = list(CTX)
         for k in range(n):
-            if k % 400 == 200:
+            if k % 400 == 10:
                 # scale: 300 interleaved groups (join slots of key indices > 255 / more than 128 keys between two items of a key),
                 # branches that emit at different rates so values wait in the join slots
                 nb = rng.choice([2, 3])
